@@ -100,22 +100,24 @@ def run_group(g, work, spec_checks, rulelog_cls, extra_cbmc=None):
         loops_file = None
         if b.get('loops_tpl'):
             loops_file = os.path.join(gw, 'loops.json')
-            loop_fill(b['loops_tpl'], gb, loops_file)
+            loop_fill(b['loops_tpl'], gb, loops_file, incdirs=[gw, CONTRACTS])
         gi = os.path.join(gw, 'gi.gb')
         if b.get('enforce') or b.get('replace'):
             C.instrument(gb, gi, b['entry'], b.get('enforce', []), b.get('replace', []), loops_file, log)
         else:
             gi = gb
         extra = list(b.get('cbmc_extra', [])) + list(extra_cbmc or [])
-        if spec_checks:
+        if spec_checks and b.get('cbmc_flags') is None:
             extra += ['--pointer-overflow-check']
-        r = C.cbmc(gi, log, g.timeout, extra=extra)
+        r = C.cbmc(gi, log, g.timeout, extra=extra, flags=b.get('cbmc_flags'))
         res['cmd'] = r['cmd'].replace(gw, '<work>')
         res['solver_seconds'] = r['solver_seconds']
         obl = []
         for pr in r['props']:
             loc = pr['location'] or {}
             cls = C.classify(pr['name'], pr['description'])
+            if loc.get('function') == '_fn' and cls in ('memory_safety', 'overflow', 'assertion'):
+                cls = 'spec_text'  # safety check inside a loop-invariant predicate (evaluated unguarded by CBMC)
             f = loc.get('file', '')
             ln = int(loc.get('line', 0) or 0)
             tags, ctext = (None, '')
@@ -138,7 +140,7 @@ def run_group(g, work, spec_checks, rulelog_cls, extra_cbmc=None):
             raise C.Undecided('loop contract was dropped: no loop_invariant_step obligations generated')
         if b.get('min_obligations') and len(obl) < b['min_obligations']:
             raise C.Undecided(f'only {len(obl)} obligations generated, expected at least {b["min_obligations"]}')
-        real_fail = [o for o in obl if o['status'] == 'FAILURE' and o['class'] != 'canary']
+        real_fail = [o for o in obl if o['status'] == 'FAILURE' and o['class'] not in ('canary', 'spec_text')]
         other = [o for o in obl if o['status'] not in ('SUCCESS', 'FAILURE')]
         if other:
             raise C.Undecided(f'{len(other)} obligations with status {other[0]["status"]}')
@@ -155,7 +157,7 @@ def run_group(g, work, spec_checks, rulelog_cls, extra_cbmc=None):
 
 def attributed(o, group_props, pid):
     """is obligation o part of property pid's proof?"""
-    if o['class'] == 'canary':
+    if o['class'] in ('canary', 'spec_text'):
         return False
     if o['tags'] is not None:
         return pid in o['tags']
